@@ -5,7 +5,8 @@
    (Spec/MsgWriterS.v) evaluated on the implementation's output. *)
 From QV Require Import Spec.MsgWriterS.
 From QV Require Import Base.ListX Model.MsgWriter Proofs.MsgWriterP Proofs.MsgWriterScanP
-     Proofs.MsgWriterNameP Proofs.MsgWriterInvP Proofs.MsgWriterTopP.
+     Proofs.MsgWriterNameP Proofs.MsgWriterInvP Proofs.MsgWriterTopP Proofs.MsgWriterClosP
+     Proofs.MsgWriterNameSP Proofs.MsgWriterOpP Proofs.MsgWriterStepP.
 
 (* For EVERY operation sequence from a fresh writer, the state satisfies
    HEADER_SIZE <= rr_start <= cursor <= available, available + reservations = limit <= |buffer|. *)
@@ -64,6 +65,48 @@ Theorem c12_ext_rcode_kept :
   opt_ttl_of (run_writer (repeat 0%N 40) 40 (xrc_ops 2048)) = Some [128; 0; 0; 0]%N.
 Proof. exact fixed_keeps_xrcode. Qed.
 
+(* EVERY operation of the operation language (header setters, add_question, add_*_rr, add_*_rrset
+   with every hint kind, set_limit, set_compression_mode, set_edns, set_tsig/update_time_signed
+   (Unsigned), clear_rrs, templates, getters), run on ANY state satisfying the full invariant [AInv]
+   (numeric invariant + anchor invariant + the ghost names the anchors and hint-vector slots stand
+   for) with well-formed arguments and a hint obeying the API contract ([op_contract]: the slot /
+   anchor the hint designates was issued for a name equal, modulo ASCII case, to the one given),
+   returns Ok or Err -- never Panic -- and re-establishes the invariant. *)
+Theorem c12_ops_never_panic : forall d g L o, AInv d g L -> op_wf o -> op_contract d g o ->
+  match step d o with
+  | Ok (d', r) => exists L', AInv d' (gstep d g o r) L'
+  | _ => False
+  end.
+Proof. exact step_ok_all. Qed.
+
+(* [Writer::new] establishes the invariant; whole runs obeying the contract do not panic, finish
+   included (finish's two `.unwrap()`s on the OPT and TSIG records are safe because the reserved
+   space suffices). *)
+Theorem c12_run_never_panics : forall buf limit w0 ops, writer_new buf limit = Ok w0 ->
+  run_contract (mkD w0 []) g0 ops -> exists rr, run_writer buf limit ops = Ok rr.
+Proof. exact run_writer_never_panics. Qed.
+
+(* No spurious truncation: a record / RRset / question operation fails with Truncation only if
+   its UNCOMPRESSED encoding does not fit between the cursor and the available space. *)
+Theorem c12_no_spurious_truncation_rr : forall d g L s h n ty cl ttl rd vec d',
+  AInv d g L -> wf_name n -> wf_bytes rd -> hs_contract (d_regs d) g h n ->
+  step d (OAddRr s h n ty cl ttl rd vec) = Ok (d', RErr Truncation) ->
+  w_avail (d_w d) < w_cursor (d_w d) + length (nm_wire n) + 10 + length rd.
+Proof. exact rr_no_spurious. Qed.
+
+Theorem c12_no_spurious_truncation_rrset : forall d g L s h n ty cl ttl rds vec d',
+  AInv d g L -> wf_name n -> Forall wf_bytes rds -> hs_contract (d_regs d) g h n ->
+  step d (OAddRrset s h n ty cl ttl rds vec) = Ok (d', RErr Truncation) ->
+  w_avail (d_w d) < w_cursor (d_w d) + rds_size n rds.
+Proof. exact rrset_no_spurious. Qed.
+
+Theorem c12_no_spurious_truncation_question : forall d g L n qt qc d',
+  AInv d g L -> wf_name n ->
+  step d (OAddQuestion n qt qc) = Ok (d', RErr Truncation) ->
+  w_avail (d_w d) < w_cursor (d_w d) + length (nm_wire n) + 4.
+Proof. exact question_no_spurious. Qed.
+
+(* Non-vacuity of the contract-threaded run: the example run below obeys it. *)
 (* Non-vacuity: a concrete run in which a question is written, a record compresses its owner
    against the QNAME and its RDATA against the owner, and a too-large record fails and is
    rolled back; the state after the question satisfies the hypotheses of the name theorems. *)
@@ -89,6 +132,16 @@ Example c12_judge_example :
   end.
 Proof. vm_compute. reflexivity. Qed.
 
+Example c12_contract_example :
+  match writer_new (repeat 170%N 64) 64 with
+  | Ok w0 => run_contract (mkD w0 []) g0 ex_ops
+  | _ => False
+  end.
+Proof.
+  vm_compute. repeat split; try (repeat constructor; fail); try lia.
+  all: try (intros m E; inversion E; subst; repeat constructor).
+Qed.
+
 Print Assumptions c12_invariant.
 Print Assumptions c12_limit.
 Print Assumptions c12_atomic.
@@ -97,3 +150,8 @@ Print Assumptions c12_unhinted_names_roundtrip_partial.
 Print Assumptions c12_exact_is_equal.
 Print Assumptions c12_ext_rcode_refuted_prefix.
 Print Assumptions c12_ext_rcode_kept.
+Print Assumptions c12_ops_never_panic.
+Print Assumptions c12_run_never_panics.
+Print Assumptions c12_no_spurious_truncation_rr.
+Print Assumptions c12_no_spurious_truncation_rrset.
+Print Assumptions c12_no_spurious_truncation_question.
